@@ -8,6 +8,30 @@ Local Open Scope list_scope.
 Section SizeAtProofs.
   Context {N : NumOps} {L : NumLaws N}.
 
+  (* --- the final clamp  min(max(N, lo), hi)  of size_at --- *)
+  Lemma nlt_irrefl x : nlt x x = false.
+  Proof. destruct (nlt x x) eqn:E; [|reflexivity]. apply lt_true in E. destruct E as (_ & _ & E). lra. Qed.
+
+  (* the end size passes through the clamp unchanged, whatever the numbers are *)
+  Lemma clamp_esize e : clamp_size e (e_esize e) = e_esize e.
+  Proof.
+    unfold clamp_size, pymin, pymax.
+    destruct (nlt (e_esize e) (e_ssize e)) eqn:A; destruct (nlt (e_ssize e) (e_esize e)) eqn:B;
+      rewrite ?nlt_irrefl, ?A, ?B, ?nlt_irrefl; reflexivity.
+  Qed.
+
+  (* a value inside the range of the two sizes passes through the clamp unchanged *)
+  Lemma clamp_id e x :
+    nle (pymin (e_ssize e) (e_esize e)) x = true -> nle x (pymax (e_ssize e) (e_esize e)) = true ->
+    clamp_size e x = x.
+  Proof.
+    intros H1 H2. unfold clamp_size.
+    set (lo := pymin (e_ssize e) (e_esize e)) in *. set (hi := pymax (e_ssize e) (e_esize e)) in *.
+    assert (nlt x lo = false) as A by nord.
+    unfold pymax at 1. rewrite A. unfold pymin.
+    assert (nlt hi x = false) as -> by nord. reflexivity.
+  Qed.
+
   Definition EpochsOK (es : list epoch) : Prop := forall e, In e es -> ValidEpoch e.
 
   Lemma epochs_ok_tl e es : EpochsOK (e :: es) -> EpochsOK es.
@@ -182,7 +206,7 @@ Section SizeAtProofs.
     assert (epoch_owns t e = true) as Hown.
     { unfold epoch_owns. apply andb_true_iff. split; nord. }
     rewrite (find_owner _ _ _ _ (ok_start _ D) Ht (dk_chain _ D) (dk_epochs _ D) He Hown).
-    unfold size_in_epoch, isclose0, isclose. now rewrite Heq.
+    unfold size_in_epoch, isclose0, isclose. rewrite Heq. cbn [orb]. now rewrite clamp_esize.
   Qed.
 
   (* 4. inside the lifetime exactly one epoch owns t and the size is that
@@ -227,11 +251,11 @@ Section SizeAtProofs.
   (* 6. the interpolation, spelled out per size function *)
   Theorem size_formula_const e t :
     e_sf e = "constant" -> size_in_epoch e t = Ok (e_esize e).
-  Proof. intro H. unfold size_in_epoch. rewrite H. cbn. now rewrite orb_true_r. Qed.
+  Proof. intro H. unfold size_in_epoch. rewrite H. cbn. rewrite orb_true_r. now rewrite clamp_esize. Qed.
 
   Theorem size_formula_equal e t :
     neqb (e_ssize e) (e_esize e) = true -> size_in_epoch e t = Ok (e_esize e).
-  Proof. intro H. unfold size_in_epoch. rewrite H. now rewrite orb_true_r. Qed.
+  Proof. intro H. unfold size_in_epoch. rewrite H. rewrite orb_true_r. now rewrite clamp_esize. Qed.
 
   Theorem size_formula_exp e t :
     e_sf e = "exponential" -> isclose0 t (e_end e) = false ->
@@ -241,7 +265,7 @@ Section SizeAtProofs.
        q <- pdiv (e_esize e) (e_ssize e) ;;
        r <- plog q ;;
        x <- pexp (nmul r dt) ;;
-       Ok (nmul (e_ssize e) x)).
+       Ok (clamp_size e (nmul (e_ssize e) x))).
   Proof. intros H Hc Hn. unfold size_in_epoch. rewrite H, Hc, Hn. reflexivity. Qed.
 
   Theorem size_formula_lin e t :
@@ -249,7 +273,7 @@ Section SizeAtProofs.
     neqb (e_ssize e) (e_esize e) = false ->
     size_in_epoch e t =
       (dt <- pdiv (nsub (e_start e) t) (nsub (e_start e) (e_end e)) ;;
-       Ok (nadd (e_ssize e) (nmul (nsub (e_esize e) (e_ssize e)) dt))).
+       Ok (clamp_size e (nadd (e_ssize e) (nmul (nsub (e_esize e) (e_ssize e)) dt)))).
   Proof. intros H Hc Hn. unfold size_in_epoch. rewrite H, Hc, Hn. reflexivity. Qed.
 
   (* 7. between-ness, the part that needs no arithmetic: whenever the two
